@@ -14,7 +14,7 @@ import (
 
 func init() {
 	register(&Rule{ID: "R-ERRCTOR", Props: []string{"C15"}, Doc: "every *parse.Error is built by NewError from Position(r, offset); lexers pass their own cursor offset", Run: runErrCtor})
-	register(&Rule{ID: "R-REUSE", Props: []string{"C07"}, Doc: "css.IsIdent/IsURLUnquoted run the lexer's own scanners and compare the end position with len(arg)", Run: runReuse})
+	register(&Rule{ID: "R-REUSE", Props: []string{"C07"}, Doc: "css.IsIdent/IsURLUnquoted run scanner methods that Lexer.Next reaches and compare the end position with len(arg)", Run: runReuse})
 }
 
 func isParseError(t types.Type) bool {
